@@ -25,6 +25,23 @@ HARNESSES.append(H("gate", "C03/gate.c", link=["common"], stubs=["psf_log_printf
                    include_env=("log_stub", "memfile", "memset_model", "snprintf_model"), timeout=120, functions=["validate_sfinfo", "validate_psf"],
                    bounds="every SF_INFO field and data-geometry field symbolic (full width)"))
 HARNESSES += leaf_harnesses()
+# L0: header-cache primitives (psf_binheader_readf, header_read/seek/gets, bump) from an arbitrary cache state
+def readf_harnesses():
+    out = []
+    for sel in ("SEL_J", "SEL_B", "SEL_P", "SEL_FIXED", "SEL_G"):
+        for ceiling in (1, 2):
+            for pipe in ((0, 1) if sel in ("SEL_J", "SEL_P") else (0,)):
+                d = {sel: 1, "LEN": 32, "LIBSNDFILE_VERIF_MAX_HEADER": 32 * ceiling, "PIPE_FIXED": pipe, "MF_CAP": 4, "MF_MAXIO": 210, "MF_ABSTRACT": 1, "SNP_MAX": 40, "PSF_MEMSET_MAX": 64, "MEMCPY_MAX": 70}
+                out.append(H("readf.%s.%s%s" % (sel[4:].lower(), "ceiling" if ceiling == 1 else "grow1", ".pipe" if pipe else ""), "C03/readf.c", link=["common"], stubs=["psf_log_printf", "psf_memset"], defines=d,
+                             unwind=6, unwindset=["psf_fread.0:211", "psf_binheader_readf.0:12", "psf_binheader_readf.1:40", "header_gets.0:26", "header_seek.0:4", "memcpy.0:71", "memset.0:71"],
+                             checks="mem", include_env=("log_stub", "memfile", "memset_model", "snprintf_model", "memcpy_model"), timeout=400,
+                             # measured: j/b/p 13..45 s; fixed-width at the ceiling ~120 s; fixed-width with a growth step and "G": no verdict (300 s / 24 GB)
+                             tiers=(("quick", "thorough") if sel in ("SEL_J", "SEL_B", "SEL_P") else ("thorough",) if (sel == "SEL_FIXED" and ceiling == 1) else ()),
+                             functions=["psf_binheader_readf", "header_read", "header_seek", "header_gets", "psf_bump_header_allocation"],
+                             bounds="cache block of 32 bytes (exact heap block), %s (hook LIBSNDFILE_VERIF_MAX_HEADER), indx, end <= len symbolic; file length and position 0..200, %s; directive argument symbolic" % (
+                                 "at its ceiling: growth refused" if ceiling == 1 else "one growth step (to 64 bytes) possible", "pipe" if pipe else "regular file")))
+    return out
+HARNESSES += readf_harnesses()
 # sequences of calls after a successful open: the L4 wrapper harnesses start from any I_open state (C05/C06/C17)
 HARNESSES += [h for h in _load("C05").HARNESSES if h.name.startswith("wrap.") and ".ch2" in h.name and "probe" not in h.name]
 # ... including sf_command with every command id / datasize on an arbitrary handle state
